@@ -239,6 +239,23 @@ def gen_d43(rng, sid):
     return {"id": sid, "cluster": cluster, "ops": ops, "_R": 1, "_nlive": 2, "_joins": 1, "_leave": False, "_model": False, "_N0": 1, "_d43": True}
 
 
+def gen_d46(rng, sid):
+    """D46 (repaired), directed (harness op "d46"): the receiver of a fragment move has looked its fragment up (created it,
+    empty) and waits for its lock when the receiver's janitor passes and removes the empty fragment; the import must go into the
+    fragment that is registered afterwards, not into the detached one (the sender drops its table on OK)"""
+    d = "c03j%d" % sid
+    keys = [dmaplib.hx("%s-k%02d" % (d, i)) for i in range(60)]
+    ops = [{"op": "put", "c": "emb0", "d": d, "k": k, "v": dmaplib.hx("%s#1" % k[-6:])} for k in keys]
+    ops += [{"op": "join"}, {"op": "push"}, {"op": "d46", "c": "write.loaded"}]
+    for _ in range(6):
+        ops += [{"op": "balance", "m": 0}, {"op": "balance", "m": 1}]
+    ops.append({"op": "waitstable", "ms": 30000})
+    for k in keys:
+        ops.append({"op": "get", "c": rng.choice(["emb0", "emb1", "cc"]), "d": d, "k": k})
+    cluster = {"members": 1, "replicas": 1, "partitions": 7, "table": 4096, "evict_workers": 1, "balancer_ms": 3600000, "push_ms": 3600000}
+    return {"id": sid, "cluster": cluster, "ops": ops, "_R": 1, "_nlive": 2, "_joins": 1, "_leave": False, "_model": False, "_N0": 1, "_d46": True}
+
+
 def judge(sc, obs):
     if len(obs) < len(sc["ops"]):
         return ("env", "scenario aborted")
@@ -260,6 +277,12 @@ def judge(sc, obs):
             if r != "ok":
                 return ("env", "cluster did not stabilise: %s" % r)
             unstable_after_stop = False
+        if o == "d46":
+            if str(r).startswith("harness:"):
+                return ("env", r)
+            if not ob.get("hit"):
+                sc["_d46_nohit"] = i
+            continue
         if o == "d43":
             if ob.get("found"):
                 if ob.get("del") == "ok":
@@ -367,6 +390,8 @@ def run(res):
         scs.append(gen_d40(vlib.rng_for(res.seed, PID, "d40", j), 20000 + j))
     for j in range(1 if res.tier == "quick" else 3):
         scs.append(gen_d43(vlib.rng_for(res.seed, PID, "d43", j), 30000 + j))
+    for j in range(2 if res.tier == "quick" else 6):
+        scs.append(gen_d46(vlib.rng_for(res.seed, PID, "d46", j), 40000 + j))
     results = memberlib.run_membership(scs, jobs=6)
     failures, envfail = [], 0
     d40_scenarios, d40_keys = 0, 0
@@ -397,6 +422,17 @@ def run(res):
                 res.coverage["d43_reproduced"] = res.coverage.get("d43_reproduced", 0) + 1
             else:
                 failures.append((sc, r, sc["_d43_hit"]))
+    # D46 window: the directed scenarios hold the receiver of a move between the lookup of its fragment and the lock. When no
+    # move passes that fail point any more the window is not probed: the tie between Model/Lifecycle.v (the receiver takes the
+    # current fragment under its lock) and mergeFragments is broken.
+    d46 = [sc for sc in scs if sc.get("_d46") and len(results[sc["id"]].get("obs", [])) >= len(sc["ops"])
+           and not results[sc["id"]].get("env", {}).get("error")]
+    res.coverage["d46_window_probed"] = sum(1 for sc in d46 if sc.get("_d46_nohit") is None)
+    if d46 and all(sc.get("_d46_nohit") is not None for sc in d46) and not failures:
+        res.violation({"kind": "correspondence", "failed": "correspondence Model/Lifecycle.v vs internal/dmap mergeFragments: no fragment move reached the fail point "
+                       "write.loaded (loadOrCreateFragmentForWrite) in %d directed scenarios; the receiver of a move no longer takes its fragment the way "
+                       "the write paths do, the janitor window (D46) cannot be probed" % len(d46),
+                       "scenario": {"ops": d46[0]["ops"]}, "cluster": d46[0]["cluster"]}, no_input=True)
     if envfail * 3 > len(scs):
         raise vlib.CheckError("%d of %d rebalancing scenarios could not start or stabilise (environment)" % (envfail, len(scs)))
     # A failure of a whole-cluster scenario is reported when it shows again in one of three re-runs of the same scenario:
